@@ -30,7 +30,10 @@ VARIANTS = {
     # std-linked binary never runs -> Environment::Inherit passes a NULL envp (empty environment).
     "start": ("harness", True, [[]]),
     "nostart": ("harness_nostart", False, []),
+    # no-libc executable started by tiny-std's own _start (feature `executable`): real Inherit
+    "probe": ("probe/spawnp", True, []),
 }
+MODEL_OF = {"start": "start", "nostart": "nostart", "probe": "start"}   # which TLC run generates the plans
 
 
 # ------------------------------------------------------------------------------------------------
@@ -206,7 +209,13 @@ def execute(job):
     cmd = [os.path.join(job["tools"], "spawntrace"), "-o", log, "-t", str(job.get("timeout_ms", 4000))]
     if inj:
         cmd += ["-i", inj]
-    cmd += ["--", os.path.join(job["bindir"], "spawnd"), "plan.json", evf]
+    probe = job["variant"] == "probe"
+    if probe:
+        for o in dplan["open"]:
+            cmd += ["-f", "%d:%s:%s" % (o["fd"], "w" if o["write"] else "r", o["path"])]
+        cmd += ["--", os.path.join(job["bindir"], "spawnp")] + probe_args(dplan)
+    else:
+        cmd += ["--", os.path.join(job["bindir"], "spawnd"), "plan.json", evf]
     with open(os.path.join(rundir, "drv_in")) as fi, open(os.path.join(rundir, "drv_out"), "a") as fo, \
             open(os.path.join(rundir, "drv_err"), "a") as fe:
         try:
@@ -221,8 +230,65 @@ def execute(job):
     dpath = helper + ".dump"
     if os.path.exists(dpath):
         dump = json.loads(open(dpath).read())
-    events = assemble(job["idx"], c, tr, dv, dump)
+    info = info_from_tracer(job["idx"], c, tr) if probe else info_from_driver(job["idx"], c, dv)
+    events = assemble(job["idx"], c, tr, info, dump)
     return {"idx": job["idx"], "events": events, "c": c, "dplan": dplan, "inj": inj, "tracer": tr, "driver": dv, "dump": dump}
+
+
+def probe_args(dplan):
+    a = ["bin=" + dplan["bin"]] + ["arg=" + x for x in dplan["args"]] + ["env=" + x for x in (dplan["env"] or [])]
+    if dplan["cwd"]:
+        a.append("cwd=" + dplan["cwd"])
+    for k, n in (("uid", "uid"), ("gid", "gid"), ("pgroup", "pg")):
+        if dplan[k] is not None:
+            a.append("%s=%d" % (n, dplan[k]))
+    for k, n in (("stdin", "in"), ("stdout", "out"), ("stderr", "err")):
+        v = dplan[k]
+        if v is not None:
+            a.append("%s=%s" % (n, v if isinstance(v, str) else "fd:%d" % v["fd"]))
+    return a + ["pre=%d" % x for x in dplan["pre_exec"]]
+
+
+NOFD = {"link": "", "acc": -1}
+
+
+def info_from_driver(idx, c, dv):
+    """what the std-linked driver reported about itself: descriptors before spawn, the Child's pipes, wait"""
+    drv = next((e for e in dv if e.get("ev") == "driver"), None)
+    ret = next((e for e in dv if e.get("ev") == "returned"), None)
+    waited = next((e for e in dv if e.get("ev") == "waited"), None)
+    if drv is None:
+        raise core.ToolError("driver wrote no 'driver' event (run %d)" % idx)
+    pipes = []
+    for n in ("stdin", "stdout", "stderr"):
+        pe = (ret or {}).get("pipes", {}).get(n) if ret and ret.get("res") == "ok" else None
+        pipes.append({"link": pe["link"], "acc": pe["acc"]} if pe else dict(NOFD))
+    return {"dio": [fdent(drv["fds"], i) for i in range(3)],
+            "raw": [fdent(drv["fds"], RAWFD[i]) if c["io"][i] == "raw" else dict(NOFD) for i in range(3)],
+            "pipes": pipes, "pgrp": drv["pgrp"],
+            "waited": None if waited is None else {"res": waited["res"], "status": waited.get("status", waited.get("code") or 0) or 0}}
+
+
+def info_from_tracer(idx, c, tr):
+    """the same facts for the no-libc probe, which reports through markers only: the tracer lists the
+    marking task's descriptors at spawn:begin and at returned:*"""
+    begin = next((e for e in tr if e["ev"] == "fds" and e["task"] == 1 and e["at"] == "begin"), None)
+    if begin is None:
+        raise core.ToolError("probe never reached spawn:begin (run %d)" % idx)
+    retfds = next((e for e in tr if e["ev"] == "fds" and e["task"] == 1 and e["at"] == "returned"), None)
+    rmark = next((e for e in tr if e["ev"] == "mark" and e["task"] == 1 and e["text"].startswith("returned:ok:")), None)
+    pipes = [dict(NOFD) for _ in range(3)]
+    if rmark and retfds:
+        nums = [int(x) for x in rmark["text"].split(":")[2].split(",")]
+        pipes = [fdent(retfds["fds"], n) if n >= 0 else dict(NOFD) for n in nums]
+    waited = None
+    for e in tr:
+        if e["ev"] == "mark" and e["task"] == 1 and e["text"].startswith("waited:"):
+            t = e["text"].split(":")
+            waited = {"res": t[1], "status": int(t[2]) if t[2].lstrip("-").isdigit() else 0}
+    return {"dio": [fdent(begin["fds"], i) for i in range(3)],
+            "raw": [fdent(begin["fds"], RAWFD[i]) if c["io"][i] == "raw" else dict(NOFD) for i in range(3)],
+            "pipes": pipes, "pgrp": begin["pgrp"], "waited": waited}
 
 
 def fdent(table, fd):
@@ -232,20 +298,10 @@ def fdent(table, fd):
     return {"link": "", "acc": -1}
 
 
-def assemble(idx, c, tr, dv, dump):
-    """merge tracer log, driver events and helper dump into the event list SpawnTrace.tla reads"""
-    drv = next((e for e in dv if e.get("ev") == "driver"), None)
-    ret = next((e for e in dv if e.get("ev") == "returned"), None)
-    waited = next((e for e in dv if e.get("ev") == "waited"), None)
-    if drv is None:
-        raise core.ToolError("driver wrote no 'driver' event (run %d)" % idx)
-    pipes = []
-    for n in ("stdin", "stdout", "stderr"):
-        pe = (ret or {}).get("pipes", {}).get(n) if ret and ret.get("res") == "ok" else None
-        pipes.append({"link": pe["link"], "acc": pe["acc"]} if pe else {"link": "", "acc": -1})
-    facts = {"dio": [fdent(drv["fds"], i) for i in range(3)],
-             "raw": [fdent(drv["fds"], RAWFD[i]) if c["io"][i] == "raw" else {"link": "", "acc": -1} for i in range(3)],
-             "pipes": pipes, "pgrp": drv["pgrp"]}
+def assemble(idx, c, tr, info, dump):
+    """merge tracer log, driver-reported facts and helper dump into the event list SpawnTrace.tla reads"""
+    facts = {"dio": info["dio"], "raw": info["raw"], "pipes": info["pipes"], "pgrp": info["pgrp"]}
+    waited = info["waited"]
     out = [{"ev": "reset", "run": idx, "cfg": c, "facts": facts}]
     returned = False
     for e in tr:
@@ -285,7 +341,7 @@ def assemble(idx, c, tr, dv, dump):
         elif k == "timeout":
             out.append({"ev": "anomaly", "what": "TimedOut"})
     if waited is not None:
-        out.append({"ev": "waited", "res": waited["res"], "status": waited.get("status", waited.get("code") or 0) or 0})
+        out.append({"ev": "waited", "res": waited["res"], "status": waited["status"]})
     out.append({"ev": "end"})
     return out
 
@@ -391,9 +447,9 @@ def run(tier):
     clause_runs = {}
     tools = build_tools()
     with concurrent.futures.ThreadPoolExecutor(max_workers=6) as ex:
-        futs = {v: ex.submit(tlc_plans, chk, tier, VARIANTS[v][1]) for v in VARIANTS}
+        futs = {v: ex.submit(tlc_plans, chk, tier, VARIANTS[v][1]) for v in set(MODEL_OF.values())}
         sfuts = model_selftest_jobs(chk, ex)
-        tlcres = {v: futs[v].result() for v in VARIANTS}
+        tlcres = {v: futs[MODEL_OF[v]].result() for v in VARIANTS}
         chk.extra["model_selftest"] = {k: f.result() for k, f in sfuts.items()}
     core.log("Spawn_MC x2 + model self-test %.1fs" % (time.time() - t0))
     def variant_work(variant, seed):
@@ -411,26 +467,27 @@ def run(tier):
         chosen, n_nofault, n_groups = select_plans(plans, tier, random.Random(seed))
         info = {"generated_by_tlc": len(plans), "executed": len(chosen), "configurations_without_fault": n_nofault,
                 "fault_x_outcome_classes": n_groups, "model_states": res.distinct}
-        bindir = core.cargo_build(template=template, bins=["spawnd"])
+        bindir = core.cargo_build(template=template, bins=None if variant == "probe" else ["spawnd"])
         base = os.path.join(chk.work, "runs-" + variant)
         if os.path.isdir(base):
             shutil.rmtree(base)
         jobs = [{"idx": i + 1, "plan": p, "variant": variant, "rundir": os.path.join(base, "r%05d" % (i + 1)),
                  "bindir": bindir, "tools": tools} for i, p in enumerate(chosen)]
         t1 = time.time()
-        with concurrent.futures.ThreadPoolExecutor(max_workers=6) as ex2:
+        with concurrent.futures.ThreadPoolExecutor(max_workers=4) as ex2:
             runs = list(ex2.map(execute, jobs))
         t2 = time.time()
         verdicts, jres = judge(chk, runs, variant)
         core.log("%s: %d real runs %.1fs, SpawnTrace judge %.1fs" % (variant, len(runs), t2 - t1, time.time() - t2))
         return info, jobs, runs, verdicts, jres
 
-    with concurrent.futures.ThreadPoolExecutor(max_workers=2) as ex:
+    with concurrent.futures.ThreadPoolExecutor(max_workers=3) as ex:
         vf = {v: ex.submit(variant_work, v, chk.seed) for v in VARIANTS}
         vres = {v: vf[v].result() for v in VARIANTS}
     for variant in VARIANTS:
         info, jobs, runs, verdicts, jres = vres[variant]
-        chk.add_tlc(tlcres[variant])
+        if MODEL_OF[variant] == variant:
+            chk.add_tlc(tlcres[variant])
         for r in jres:
             chk.add_tlc(r)
         chk.extra["plans_%s" % variant] = info
@@ -462,6 +519,7 @@ def run(tier):
             if allruns % 97 == 1:
                 chk.sample({"variant": variant, "cfg": plan["cfg"], "fault": plan["fault"],
                             "returns": v["returns"], "execd": v["execd"], "failed": v["failed"]})
+    chk.extra["judge_selftest"] = {k: v["ok"] for k, v in judge_selftest(chk).items()}
     chk.nontrivial = nontrivial
     chk.rule = ("one evaluation = one execution of the real Command::spawn (driver spawnd, with and without feature "
                 "`start`) under the ptrace tracer along a TLC-generated configuration x fault plan, judged by TLC "
@@ -488,12 +546,98 @@ def run(tier):
     return chk.finish()
 
 
+FIXTURE = os.path.join(os.path.dirname(os.path.abspath(__file__)), "c13_fixture.json")
+
+
+def record_fixture():
+    """(maintenance) record the two base traces of the judge self-test from the current tree"""
+    chk = core.Check("C13", "quick", "model_checking")
+    tools = build_tools()
+    bindir = core.cargo_build(template="harness", bins=["spawnd"])
+    base_cfg = {"nargs": 2, "nenv": 2, "cwd": "ok", "uid": "own", "gid": "own", "pg": "own",
+                "io": ["null", "pipe", "raw"], "pre": [0], "prog": "ok"}
+    nof = {"p": "-", "sys": "-", "k": 0, "err": 0}
+    plans = [{"cfg": base_cfg, "fault": nof},
+             {"cfg": base_cfg, "fault": {"p": "C", "sys": "chdir", "k": 1, "err": 13}}]
+    runs = []
+    for i, p in enumerate(plans):
+        r = execute({"idx": i + 1, "plan": p, "variant": "start", "bindir": bindir, "tools": tools,
+                     "rundir": os.path.join("/tmp/c13-fixture", "r%d" % (i + 1))})
+        runs.append({"idx": r["idx"], "events": r["events"]})
+    with open(FIXTURE, "w") as fh:
+        json.dump(runs, fh, indent=0)
+    return runs
+
+
+def judge_selftest(chk):
+    """Anti-vacuity of the trace judge: two recorded runs of the real code (one Ok, one Err after an
+    injected chdir failure in the child; stored in c13_fixture.json so that the test does not depend
+    on the tree under test) are accepted; copies with one corrupted field / one dropped event must
+    be rejected by TLC with the expected clause."""
+    import copy
+    ok, err = json.load(open(FIXTURE))
+
+    def variant(run, idx, f):
+        r = copy.deepcopy(run)
+        r["idx"] = idx
+        r["events"][0]["run"] = idx
+        r["events"] = f(r["events"])
+        return r
+
+    def setf(kind, pred, **kw):
+        def f(evs):
+            for e in evs:
+                if e["ev"] == kind and pred(e):
+                    e.update(kw)
+                    break
+            return evs
+        return f
+    cases = [
+        ("unchanged-ok", ok, lambda evs: evs, None),
+        ("unchanged-err", err, lambda evs: evs, None),
+        ("return-in-child", err, setf("mark", lambda e: e["kind"] == "returned", task=2), "ReturnsOnlyInCaller"),
+        ("exec-event-dropped", ok, lambda evs: [e for e in evs if e["ev"] not in ("exec", "dump")], "OkMeansExec"),
+        ("errno-changed", err, setf("mark", lambda e: e["kind"] == "returned", code=14), "ErrCarriesErrno"),
+        ("errno-negative", err, setf("mark", lambda e: e["kind"] == "returned", code=-13), "ErrCarriesErrno"),
+        ("ok-despite-failure", err, setf("mark", lambda e: e["kind"] == "returned", res="ok", code=0), "OkMeansExec"),
+        ("argv-changed", ok, setf("dump", lambda e: True, argv=["x"]), "OkMeansConfigured"),
+        ("cwd-changed", ok, setf("dump", lambda e: True, cwd="/"), "OkMeansConfigured"),
+        ("stdout-not-the-pipe", ok, lambda evs: [dict(e, io=[e["io"][0], e["io"][2], e["io"][2]]) if e["ev"] == "dump" else e for e in evs], "OkMeansConfigured"),
+        ("wait-status-changed", ok, setf("waited", lambda e: True, status=3584), "WaitStatus"),
+        ("no-return", ok, lambda evs: [e for e in evs if not (e["ev"] == "mark" and e["kind"] == "returned")], "ReturnsExactlyOnceInCaller"),
+        ("child-never-exits", err, lambda evs: [e for e in evs if not (e["ev"] == "exit" and e["task"] == 2)], "NoneLeftRunning"),
+        ("hang", ok, lambda evs: evs[:-1] + [{"ev": "anomaly", "what": "TimedOut"}, evs[-1]], "Anomaly:TimedOut"),
+    ]
+    vr = [variant(r, i + 1, f) for i, (_n, r, f, _x) in enumerate(cases)]
+    verdicts, jres = judge(chk, vr, "selftest")
+    out = {}
+    for i, (name, _r, _f, expect) in enumerate(cases):
+        v = verdicts[i + 1]
+        got = list(v["viol"]) + ["Anomaly:" + a for a in v["anomalies"]]
+        good = (not got) if expect is None else (expect in got)
+        out[name] = {"expected": expect, "got": got, "ok": good}
+        if not good:
+            raise core.ToolError("judge self-test %s: expected %s, TLC reported %s" % (name, expect, got))
+    return out
+
+
+def selftest():
+    chk = core.Check("C13", "quick", "model_checking")
+    tools = build_tools()
+    with concurrent.futures.ThreadPoolExecutor(max_workers=4) as ex:
+        ms = {k: f.result() for k, f in model_selftest_jobs(chk, ex).items()}
+    js = judge_selftest(chk)
+    print(json.dumps({"model": ms, "judge": js}, indent=1))
+    print("C13 selftest OK")
+    return 0
+
+
 def replay(path):
     rp = json.load(open(path))["replay"]
     chk = core.Check("C13", "quick", "model_checking")
     tools = build_tools()
     variant = rp["variant"]
-    bindir = core.cargo_build(template=VARIANTS[variant][0], bins=["spawnd"])
+    bindir = core.cargo_build(template=VARIANTS[variant][0], bins=None if variant == "probe" else ["spawnd"])
     job = {"idx": 1, "plan": rp["plan"], "variant": variant, "rundir": os.path.join(chk.work, "replay", "r1"),
            "bindir": bindir, "tools": tools}
     r = execute(job)
